@@ -134,7 +134,14 @@ def faults(R):
     F['rdh_fee_stave48'] = rdh_fault('fee', lambda v: (v & ~0x3F) | 48)
     F['rdh_prio'] = rdh_fault('prio', 1)
     F['rdh_res0'] = rdh_fault('res0', 0x100)
-    F['rdh_version'] = rdh_fault('ver', lambda v: 13 - v)
+    def ver_fault(pk, R):
+        # the expected header id is learnt per link from that link's first header: fault a later one
+        cand = [i for i in range(1, len(pk)) if any(pk[j].rdh['link'] == pk[i].rdh['link'] and pk[j].rdh['fee'] == pk[i].rdh['fee'] for j in range(i))]
+        if not cand: return None
+        i = R.choice(cand)
+        pk[i].rdh['ver'] = 13 - pk[i].rdh['ver']
+        return (G.offsets(pk)[i], {'E10'}, False, False)
+    F['rdh_version'] = ver_fault
     F['rdh_dw'] = rdh_fault('dw', 2, first_ok=True)
     F['rdh_df3'] = rdh_fault('df', 3, first_ok=True)
     F['rdh_bc_dec'] = rdh_fault('bc', 0xdec, first_ok=True)
